@@ -62,6 +62,10 @@ static const Cfg CFGS[] = {
 static const uint8_t  CLASSES[2][NTAB] = { { 0, 1, 1, 2, 7 }, { 1, 1, 1, 1, 1 } };
 static const uint16_t CODES[NTAB]      = { 0x1000, 0x2310, 0x2320, 0x3110, 0xFF10 };
 static Cfg C;
+/* --opt layout=K: table rows of the five addressed errors (status bytes Err[idx >> 3]: neighbours across byte borders, particular bit positions) */
+static const uint8_t LAYOUTS[4][NTAB] = { { 0, 1, 2, 3, 4 }, { 5, 10, 18, 9, 3 }, { 7, 8, 15, 16, 24 }, { 6, 13, 14, 22, 29 } };
+static uint8_t IDXMAP[NTAB];
+static int api_idx(int err) { return err < NTAB ? IDXMAP[err] : err; }
 static uint32_t ENABLE_ID;                                       /* value the "enable" event writes to 1014h */
 
 static const char *cfg_name(int c)
@@ -178,9 +182,11 @@ static int build(int cfg)
 
     /* emergency table: CO_EMCY_N rows (the stack clamps indices to the last row) */
     for (int i = 0; i < CO_EMCY_N; i++) { Tbl[i].Reg = 0; Tbl[i].Code = (uint16_t)(0xFF00 + i); }
-    for (int i = 0; i < NTAB; i++)      { Tbl[i].Reg = CLASSES[C.tab][i]; Tbl[i].Code = CODES[i]; }
+    { int lay = mc_opt("layout", 0); if (lay < 0 || lay > 3) lay = 0;
+      for (int i = 0; i < NTAB; i++) { IDXMAP[i] = LAYOUTS[lay][i]; if (IDXMAP[i] >= CO_EMCY_N - 1) { fprintf(stderr, "c15: layout %d needs CO_EMCY_N > %d\n", lay, IDXMAP[i] + 1); exit(2); } } }
+    for (int i = 0; i < NTAB; i++)      { Tbl[IDXMAP[i]].Reg = CLASSES[C.tab][i]; Tbl[IDXMAP[i]].Code = CODES[i]; }
     for (int s = 0; s < NSLOT; s++) {
-        int idx = s < NTAB ? s : CO_EMCY_N - 1;
+        int idx = s < NTAB ? IDXMAP[s] : CO_EMCY_N - 1;
         MT[s].idx = (uint8_t)idx; MT[s].cls = Tbl[idx].Reg; MT[s].code = Tbl[idx].Code;
     }
 
@@ -348,7 +354,7 @@ static void do_set(int err, int withusr, const char *what)
     int s = slot_of(err), apply = 1;
     int16_t before = COEmcyGet(&Node.Emcy, MT[s].idx);
     memset(&x, 0, sizeof x);
-    COEmcySet(&Node.Emcy, (uint8_t)err, withusr ? &usr : 0);
+    COEmcySet(&Node.Emcy, (uint8_t)api_idx(err), withusr ? &usr : 0);
     if (err >= CO_EMCY_N) {                                       /* not defined by the statement: ignored or last row */
         int16_t after = COEmcyGet(&Node.Emcy, MT[s].idx);
         apply = (before == 0 && after == 1) || OBS.ntx > first;
@@ -368,7 +374,7 @@ static void do_clr(int err, const char *what)
     int s = slot_of(err), apply = 1;
     int16_t before = COEmcyGet(&Node.Emcy, MT[s].idx);
     memset(&x, 0, sizeof x);
-    COEmcyClr(&Node.Emcy, (uint8_t)err);
+    COEmcyClr(&Node.Emcy, (uint8_t)api_idx(err));
     if (err >= CO_EMCY_N) {
         int16_t after = COEmcyGet(&Node.Emcy, MT[s].idx);
         apply = (before == 1 && after == 0) || OBS.ntx > first;
@@ -446,7 +452,7 @@ static int step(int ev)
         break; }
     case EV_GET: {
         int s = slot_of(E->a);
-        int16_t g = COEmcyGet(&Node.Emcy, E->a);
+        int16_t g = COEmcyGet(&Node.Emcy, (uint8_t)api_idx(E->a));
         mc_log("    COEmcyGet(%d) -> %d\n", E->a, g);
         w_cb(CB_USER, EV_GET, (uint32_t)g, 0);                    /* the return value is an observation of the step */
         check_frames(&x, 0, what);
